@@ -13,7 +13,7 @@ from typing import Any
 from .src import AnalysisError, Func, Repo, norm, short
 
 VERIF = Path(__file__).resolve().parent.parent
-EVIDENCE_DIR = VERIF / "evidence"
+EVIDENCE_DIR = Path(os.environ.get("VERIF_EVIDENCE_DIR") or (VERIF / "evidence"))
 KNOWN_FINDINGS = VERIF / "known_findings.json"
 
 
@@ -143,10 +143,13 @@ def finish(ctx: Ctx, explanation: str, assumptions: list[str], extra: dict[str, 
                 indent=1,
             )
         )
-        print(f"{o.loc or o.where} {o.where} {o.rule}: {o.construct} -- {o.detail}")
-        for p in o.path:
-            print(f"    path: {p}")
-        print(f"VIOLATION property={ctx.prop} replay={rp}")
+        if n <= 25:
+            print(f"{o.loc or o.where} {o.where} {o.rule}: {o.construct} -- {o.detail}")
+            for p in o.path:
+                print(f"    path: {p}")
+            print(f"VIOLATION property={ctx.prop} replay={rp}")
+        elif n == 26:
+            print(f"... further violations of {ctx.prop} are recorded under {vdir} only")
 
     distinct = len({o.key for o in ctx.obligations})
     samples = []
